@@ -415,9 +415,11 @@ impl FmtArgument {
 impl Parse for FmtArgument {
     fn parse(input: ParseStream) -> syn::Result<Self> {
         Ok(Self {
-            alias: (input.peek(syn::Ident) && input.peek2(token::Eq))
-                .then(|| Ok::<_, syn::Error>((input.parse()?, input.parse()?)))
-                .transpose()?,
+            alias: (input.peek(syn::Ident)
+                && input.peek2(token::Eq)
+                && !input.peek2(token::EqEq))
+            .then(|| Ok::<_, syn::Error>((input.parse()?, input.parse()?)))
+            .transpose()?,
             expr: input.parse()?,
         })
     }
